@@ -58,6 +58,7 @@ class StreamResult:
         self.samples: list = []
         self.histogram: dict = {}
         self.note = ''
+        self.wall_s = 0.0
 
     def disagree(self, d: dict) -> None:
         self.n_disagree += 1
@@ -156,11 +157,13 @@ class Check:
             sr.note = 'skipped: no model driver'
             self.streams.append(sr)
             return sr
+        _t = time.time()
         try:
             fn(sr)
         except Exception:
             sr.note = 'stream crashed: ' + traceback.format_exc()[-800:]
             self.broken_ties.append(f'correspondence stream {name} crashed: {sr.note[-300:]}')
+        sr.wall_s = round(time.time() - _t, 1)
         if sr.n_disagree:
             self.broken_ties.append(f'correspondence stream {name}: {sr.n_disagree} disagreement(s), first: '
                                     + json.dumps(sr.disagreements[0], default=str)[:600])
@@ -170,11 +173,13 @@ class Check:
     # -- step 5: search ------------------------------------------------------------------
     def search(self, name: str, fn) -> StreamResult:
         sr = StreamResult(name)
+        _t = time.time()
         try:
             fn(sr)
         except Exception:
             sr.note = 'search crashed: ' + traceback.format_exc()[-800:]
             self.broken_ties.append(f'search {name} crashed: {sr.note[-300:]}')
+        sr.wall_s = round(time.time() - _t, 1)
         self.searches.append(sr)
         return sr
 
@@ -243,10 +248,10 @@ class Check:
                     'compared between the Lean model (or executable spec) and the real code',
             'samples': samples or [{'note': 'no stream ran'}],
             'streams': [{'name': s.name, 'evaluations': s.evaluations, 'distinct': s.distinct,
-                         'disagreements': s.n_disagree, 'histogram': s.histogram, 'note': s.note}
+                         'disagreements': s.n_disagree, 'histogram': s.histogram, 'note': s.note, 'wall_s': s.wall_s}
                         for s in self.streams],
             'searches': [{'name': s.name, 'evaluations': s.evaluations, 'distinct': s.distinct,
-                          'histogram': s.histogram, 'note': s.note} for s in self.searches],
+                          'histogram': s.histogram, 'note': s.note, 'wall_s': s.wall_s} for s in self.searches],
             'known_findings_seen': {k: v.to_json() for k, v in self.known_hits.items()},
             'broken_ties': self.broken_ties,
             'notes': self.notes,
